@@ -65,7 +65,7 @@ theorem C15_required_def (cfg : Cfg) (L : List Leaf) (ps : List P) :
 /-- the same for the strings the setter refuses (no parse, not exactly one statement, a statement that is not an
     expression) and when nothing is configured: the formula is ignored and the required-based status applies -/
 theorem C15_ignored_required (cfg : Cfg) (L : List Leaf) (ps : List P) (t : Option Top)
-    (ht : (∀ f, t ≠ some (.expr f)) ∧ (∀ c, t ≠ some (.parserExc c))) :
+    (ht : (∀ f, t ≠ some (.expr f)) ∧ (∀ c, t = some (.parserExc c) → c = 2 ∨ c = 3 ∨ c = 4)) :
     run cfg L ps t = .ok { state := specState ps,
                            major := majorOf (specState ps) (rows ps),
                            minor := minorNarrow cfg.managed (specState ps) (rows ps) } := by
@@ -76,7 +76,10 @@ theorem C15_ignored_required (cfg : Cfg) (L : List Leaf) (ps : List P) (t : Opti
   | some .stmtNoValue, _ => exact C15_required_def cfg L ps
   | some .stmtValueNone, _ => exact C15_required_def cfg L ps
   | some (.stmtValue _), _ => exact C15_required_def cfg L ps
-  | some (.parserExc c), h => exact absurd rfl (h.2 c)
+  | some (.parserExc c), h =>
+    have hc := h.2 c rfl
+    have : run cfg L ps (some (.parserExc c)) = run cfg L ps none := by simp [run, load, hc]
+    rw [this]; exact C15_required_def cfg L ps
   | some (.expr f), h => exact absurd rfl (h.1 f)
 
 /-! ### Formula-based status -/
@@ -131,19 +134,26 @@ theorem C15_other_construct_major_partial (cfg : Cfg) (L : List Leaf) (ps : List
         | l xs => rfl
   rw [this]
 
-/-- **C15, "rather than an error" at full strength for every shape.**  For EVERY formula expression, every process list
-    and every stack budget (no hypothesis on the shape or the depth of the formula): if loading + `update` raises at
-    all, what escapes is `RecursionError` — no `AttributeError`, `IndexError`, `re.error`, `OverflowError` any more. -/
-theorem C15_only_recursion_escapes (cfg : Cfg) (L : List Leaf) (ps : List P) (f : Formula) (e : Err)
-    (hL : LeavesHandled L) (h : run cfg L ps (some (.expr f)) = .error e) : e = .recursion := by
-  simp only [run, load, update, statusTree, statusFormula, formulaMajor] at h
+/-- **C15, "rather than an error" at FULL STRENGTH.**  For EVERY formula expression, every process list and every stack budget
+    (no hypothesis on the shape or the depth of the formula): loading + `update` never raises - no `AttributeError`,
+    `IndexError`, `re.error`, `OverflowError`, and (since the repair of `update_status_formula`) no `RecursionError` either;
+    a formula nested deeper than the interpreter stack allows is a major failure. -/
+theorem C15_formula_never_raises (cfg : Cfg) (L : List Leaf) (ps : List P) (f : Formula) (hL : LeavesHandled L) :
+    ∃ s, run cfg L ps (some (.expr f)) = .ok s := by
+  simp only [run, load, update, statusTree, statusFormula, formulaMajor]
   cases hev : evaluate L ps cfg.stack f with
-  | ok v => rw [hev] at h; cases v <;> simp at h
+  | ok v => cases v <;> exact ⟨_, rfl⟩
   | error e' =>
-    rw [hev] at h
     rcases evaluate_error L ps hL cfg.stack f e' hev with rfl | rfl
-    · simp [handled] at h
-    · simp [handled] at h; exact h.symm
+    · exact ⟨_, rfl⟩
+    · exact ⟨_, rfl⟩
+
+/-- beyond the stack budget the answer is a major failure -/
+theorem C15_too_deep_is_major (cfg : Cfg) (L : List Leaf) (ps : List P) (f : Formula)
+    (h : evaluate L ps cfg.stack f = .error .recursion) :
+    ∃ s, run cfg L ps (some (.expr f)) = .ok s ∧ s.major = true := by
+  simp only [run, load, update, statusTree, statusFormula, formulaMajor, h, handled]
+  exact ⟨_, rfl, rfl⟩
 
 /-- a pattern matching nothing, or an invalid pattern (`re.error`, `OverflowError`): major failure -/
 theorem C15_nomatch_major (cfg : Cfg) (L : List Leaf) (ps : List P) (k : Nat)
@@ -153,23 +163,27 @@ theorem C15_nomatch_major (cfg : Cfg) (L : List Leaf) (ps : List P) (k : Nat)
   C15_other_construct_major_partial cfg L ps (.str k) (by simpa [depth] using hstack) hL
     (Or.inr (fun x => by rcases hk with hk | hk | hk <;> simp [sem, hk]))
 
-/-- The full-strength totality clause: for EVERY formula expression, every leaf table and every stack budget,
+/-- The full-strength clause WITH the denotation: for EVERY formula expression, every leaf table and every stack budget,
     `update` returns Booleans and the major failure is the one of the definition. -/
 def C15_formula_total_statement : Prop :=
   ∀ (cfg : Cfg) (L : List Leaf) (ps : List P) (f : Formula),
     ∃ s, run cfg L ps (some (.expr f)) = .ok s ∧ s.major = majorOfFormula L (rows ps) f
 
-/-- Known finding `C15:evaluate:RecursionError:deep-nesting` (the only input class left): `evaluate` is recursive and
-    `RecursionError` is not handled — a formula nested deeper than the interpreter stack allows escapes `update`.
-    Witness (stack budget 2, `not not "a"`); replayed on the implementation with the real budget by
-    `corpus/C15/kf_deep_evaluate.json` (1400 nested `not`). -/
+/-- What is left of the former known finding `C15:evaluate:RecursionError:deep-nesting` after its repair: nothing raises any more
+    (`C15_formula_never_raises`), but a formula nested deeper than the interpreter stack allows is answered "major failure"
+    whatever it denotes - a limit of the host interpreter, not of the definition.  Witness (stack budget 2, `not not "a"` with
+    `a` RUNNING: the definition says no major failure); with the real budget: 1400 nested `not`
+    (`corpus/C15/fixed_deep_evaluate.json`). -/
 theorem C15_formula_total_refuted : ¬ C15_formula_total_statement := by
   intro h
-  obtain ⟨s, hs, _⟩ := h { stack := 2 } [.exact 0] [{ state := .running }] (.notOp (.notOp (.str 0)))
-  have : run { stack := 2 } [.exact 0] [{ state := .running }] (some (.expr (.notOp (.notOp (.str 0)))))
-      = .error .recursion := rfl
-  rw [this] at hs
-  cases hs
+  obtain ⟨s, hs, hm⟩ := h { stack := 2 } [.exact 0] [{ state := .running }] (.notOp (.notOp (.str 0)))
+  obtain ⟨s', hs', hm'⟩ := C15_too_deep_is_major { stack := 2 } [.exact 0] [{ state := .running }] (.notOp (.notOp (.str 0))) rfl
+  rw [hs'] at hs
+  injection hs with hs
+  subst hs
+  rw [hm'] at hm
+  revert hm
+  decide
 
 /-! ### Strings that are not one expression -/
 
@@ -179,29 +193,31 @@ def C15_not_formula_statement : Prop :=
     ∃ s, run cfg L ps (some t) = .ok s ∧
       (s.major = true ∨ requiredOk cfg.managed (rows ps) s.state s.major s.minor = true)
 
-/-- the exceptions that escape the loading itself (`ast.parse` raising something else than `SyntaxError`:
-    `RecursionError` / `MemoryError` on very deep nesting): the setter only catches `SyntaxError` -/
-theorem C15_parser_exception_escapes (cfg : Cfg) (L : List Leaf) (ps : List P) (c : Nat) :
-    run cfg L ps (some (.parserExc c)) = .error (.parser c) := rfl
+/-- the exceptions of `ast.parse` the setter catches (`ValueError`, `RecursionError` / `MemoryError` on very deep nesting,
+    besides `SyntaxError`): the string is refused like any string that does not parse -/
+theorem C15_parser_exception_ignored (cfg : Cfg) (L : List Leaf) (ps : List P) (c : Nat) (hc : c = 2 ∨ c = 3 ∨ c = 4) :
+    run cfg L ps (some (.parserExc c)) = run cfg L ps none := by
+  simp [run, load, hc]
 
-/-- Known findings `C15:setter:RecursionError:deep-nesting` / `C15:setter:MemoryError:deep-nesting` (the only input
-    class left): replayed by `corpus/C15/kf_deep_setter_*.json`. -/
-theorem C15_not_formula_refuted : ¬ C15_not_formula_statement := by
-  intro h
-  obtain ⟨s, hs, _⟩ := h {} [] [] (.parserExc 3) (by intro f hf; cases hf)
-  rw [C15_parser_exception_escapes] at hs
-  cases hs
-
-/-- **C15, strings that are not one expression (partial: parser exceptions excluded).**  Strings that do not parse,
-    that hold zero or several statements, and single statements that are not expressions (`import os`, `x = "a"`,
-    `return`) are ignored: the required-based status applies. -/
-theorem C15_not_formula_partial (cfg : Cfg) (L : List Leaf) (ps : List P) (t : Top)
-    (hne : ∀ f, t ≠ .expr f) (hnp : ∀ c, t ≠ .parserExc c) :
+/-- **C15, strings that are not one expression (full strength for what `ast.parse` can do).**  Strings that do not parse - a
+    syntax error, or the parser giving up on very deep nesting (`RecursionError`, `MemoryError`; the former known findings
+    `C15:setter:*:deep-nesting`, repaired) - that hold zero or several statements, and single statements that are not expressions
+    (`import os`, `x = "a"`, `return`) are ignored: the required-based status applies, nothing raises. -/
+theorem C15_not_formula (cfg : Cfg) (L : List Leaf) (ps : List P) (t : Top)
+    (hne : ∀ f, t ≠ .expr f) (hnp : ∀ c, t = .parserExc c → c = 2 ∨ c = 3 ∨ c = 4) :
     ∃ s, run cfg L ps (some t) = .ok s ∧ requiredOk cfg.managed (rows ps) s.state s.major s.minor = true := by
   refine ⟨_, C15_ignored_required cfg L ps (some t) ⟨?_, ?_⟩, ?_⟩
   · intro f hf; injection hf with hf; exact hne f hf
   · intro c hc; injection hc with hc; exact hnp c hc
   · simp [requiredOk]
+
+/-- the reading of DESIGN.md §7: ignored (the required-based status applies) or major failure; never an error -/
+theorem C15_not_formula_statement_holds (cfg : Cfg) (L : List Leaf) (ps : List P) (t : Top)
+    (hne : ∀ f, t ≠ .expr f) (hnp : ∀ c, t = .parserExc c → c = 2 ∨ c = 3 ∨ c = 4) :
+    ∃ s, run cfg L ps (some t) = .ok s ∧
+      (s.major = true ∨ requiredOk cfg.managed (rows ps) s.state s.major s.minor = true) := by
+  obtain ⟨s, hs, hr⟩ := C15_not_formula cfg L ps t hne hnp
+  exact ⟨s, hs, Or.inr hr⟩
 
 /-! ### Frame -/
 
